@@ -22,7 +22,7 @@ package ipmi
 //@    forall(qk, padStart, i, data[qk] == uint8(qk-padStart)+1)
 //@ ensures [C07.aes-short] len(data) < 17 || len(data)%16 != 0 ==> result != nil
 //@ ensures [C04.aes-pad] result == nil ==> int(data[len(data)-1]) <= 16 && int(data[len(data)-1]) <= len(data)-17 &&
-//@    forall(qk, 0, int(data[len(data)-1]), data[len(data)-1-int(data[len(data)-1])+qk] == uint8(qk)+1)
+//@    forall(qk, len(data)-1-int(data[len(data)-1]), len(data)-1, data[qk] == uint8(qk-(len(data)-1-int(data[len(data)-1])))+1)
 //@ ensures [C07.aes-payload] result == nil ==> aliases(a.Contents, data, 0, 16) && aliases(a.Payload, data, 16, len(data)-1-int(data[len(data)-1]))
 
 // ---- payloads of the Open Session messages (13.17, 13.18)
@@ -71,6 +71,8 @@ package ipmi
 //@ ensures [C07.fsr-id8bit] result == nil && (data[42]/64 == 3 || data[42]/64 == 0) ==> forall(qk, 0, int(data[42]%32), r.Identity[qk] == data[43+qk])
 //@ ensures [C07.fsr-idbcd] result == nil && data[42]/64 == 1 ==> forall(qk, 0, int(data[42]%32), r.Identity[qk] == specBCDPlusChar(data[43+qk/2], qk))
 //@ ensures [C07.fsr-idpacked] result == nil && data[42]/64 == 2 ==> forall(qk, 0, int(data[42]%32), r.Identity[qk] == specPacked6Char(data[43:], qk))
+//@ ensures [C07.fsr-layer] result == nil ==> aliases(r.Contents, data, 0, 43+ite(data[42]/64 == 1, (int(data[42]%32)+1)/2, ite(data[42]/64 == 2, (int(data[42]%32)*6+7)/8, int(data[42]%32)))) &&
+//@    aliases(r.Payload, data, 43+ite(data[42]/64 == 1, (int(data[42]%32)+1)/2, ite(data[42]/64 == 2, (int(data[42]%32)*6+7)/8, int(data[42]%32))), len(data))
 //@ ensures [C07.fsr-idshort] len(data) >= 43 && data[42]/64 == 1 && len(data)-43 < (int(data[42]%32)+1)/2 ==> result != nil
 //@ ensures [C07.fsr-emptyid] len(data) >= 43 && data[42]%32 == 0 ==> result == nil && len(r.Identity) == 0 // zero-length ID string, any encoding
 
